@@ -1,2 +1,62 @@
-From Coq Require Import ZArith.
-Theorem placeholder : True. Proof. exact I. Qed.
+(* Properties_C01.v — property C01: cell surfaces stay closed, consistently oriented 2-manifolds under remeshing.
+   Only statements; every proof is `exact <lemma of MeshOpsProofs.v>`.  Models: Mesh.v, MeshOps.v. *)
+From Coq Require Import NArith ZArith Bool List Lia Reals.
+From SC Require Import Num Vec3 VecR Mesh MeshProofs Geometry GeometrySpec MeshOps MeshOpsSpec MeshOpsProofs.
+Import ListNotations.
+Local Open Scope N_scope.
+
+(* T1: the oracle run on every dump of the implementation decides the operational definition *)
+Theorem valid_b_spec : forall s : list tri, valid_surface_b s = true <-> ValidSurface s.
+Proof. exact valid_surface_b_spec. Qed.
+Print Assumptions valid_b_spec.
+
+(* T2: each operation preserves "closed, consistently oriented, V-E+F=2, no repeated node" under its guard *)
+Theorem split_preserves : forall (s : list ltri) (a b e : N),
+  ValidSurface (tris s) -> In (a, b) (all_hedges (tris s)) -> ~ In e (all_nodes (tris s)) ->
+  apex s a b <> apex s b a ->
+  ValidSurface (tris (split s a b e)).
+Proof. exact split_valid. Qed.
+Print Assumptions split_preserves.
+
+Theorem swap_preserves : forall (s s' : list ltri) (a b : N),
+  ValidSurface (tris s) -> In (a, b) (all_hedges (tris s)) -> apex s a b <> apex s b a ->
+  (forall c d, apex s a b = Some c -> apex s b a = Some d -> edge_exists s c d = false) ->
+  swap s a b = Some s' -> ValidSurface (tris s').
+Proof. exact swap_valid. Qed.
+Print Assumptions swap_preserves.
+
+Theorem collapse_preserves : forall (s : list ltri) (a b i : N),
+  ValidSurface (tris s) -> In (a, b) (all_hedges (tris s)) -> ~ In i (all_nodes (tris s)) ->
+  link_ok s a b = true -> (4 < n_vertices (tris s))%nat ->
+  ValidSurface (tris (collapse s a b i)).
+Proof. exact collapse_valid. Qed.
+Print Assumptions collapse_preserves.
+
+Theorem compact_preserves : forall (sigma : N -> N) (s : list ltri),
+  (forall x y, In x (all_nodes (tris s)) -> In y (all_nodes (tris s)) -> sigma x = sigma y -> x = y) ->
+  ValidSurface (tris s) -> ValidSurface (tris (compact sigma s)).
+Proof. exact compact_valid. Qed.
+Print Assumptions compact_preserves.
+
+(* T4 (trace form): any well-formed sequence of operations, for ANY node positions and momenta (they only select
+   which operations fire), keeps the surface valid *)
+Theorem replay_preserves : forall (dynamic : bool) (ops : list op) (st st' : mstateR),
+  ValidSurface (tris (ms_faces st)) -> trace_wf dynamic st ops ->
+  replay NumR dynamic st ops = Some st' -> ValidSurface (tris (ms_faces st')).
+Proof. exact replay_valid. Qed.
+Print Assumptions replay_preserves.
+
+(* orientation: an edge split does not change the signed volume at all (the new node is the midpoint) *)
+Theorem split_keeps_signed_volume : forall (st st' : mstateR) (a b e : N) (dynamic : bool),
+  nodes_match st -> op_wf st (OpSplit a b e) -> apply_op NumR dynamic st (OpSplit a b e) = Some st' ->
+  six_signed_volume NumR (map (positions (ms_nodes st')) (tris (ms_faces st'))) =
+  six_signed_volume NumR (map (positions (ms_nodes st)) (tris (ms_faces st))).
+Proof. exact split_volume. Qed.
+Print Assumptions split_keeps_signed_volume.
+
+(* non-vacuity: the octahedron is valid and one of its edges can be split *)
+Example octa_split :
+  let s := [((0,2,4),0%nat); ((2,1,4),0%nat); ((1,3,4),0%nat); ((3,0,4),0%nat);
+            ((2,0,5),0%nat); ((1,2,5),0%nat); ((3,1,5),0%nat); ((0,3,5),0%nat)] in
+  valid_surface_b (tris s) = true /\ valid_surface_b (tris (split s 0 2 6)) = true.
+Proof. vm_compute. split; reflexivity. Qed.
